@@ -30,10 +30,10 @@ import (
 
 // ---- watchdogs -------------------------------------------------------------------------------
 
-const wdTimeout = 20 * time.Second
+const crWdTimeout = 20 * time.Second
 
 // callW runs f under a watchdog: hung is true when f did not return within d (f keeps running).
-func callW(d time.Duration, f func() error) (err error, hung bool) {
+func crCall(d time.Duration, f func() error) (err error, hung bool) {
 	ch := make(chan error, 1)
 	go func() { ch <- f() }()
 	t := time.NewTimer(d)
@@ -48,7 +48,7 @@ func callW(d time.Duration, f func() error) (err error, hung bool) {
 
 // callWP is callW for runs whose storage hooks do slow work (image checks inside the hook): the call
 // counts as hung only when it neither returned nor the progress counter moved for d.
-func callWP(d time.Duration, progress *int64, f func() error) (err error, hung bool) {
+func crCallP(d time.Duration, progress *int64, f func() error) (err error, hung bool) {
 	ch := make(chan error, 1)
 	go func() { ch <- f() }()
 	last := atomic.LoadInt64(progress)
@@ -69,14 +69,14 @@ func callWP(d time.Duration, progress *int64, f func() error) (err error, hung b
 	}
 }
 
-func goroutineDump() string {
+func crGoroutines() string {
 	buf := make([]byte, 4<<20)
 	buf = buf[:runtime.Stack(buf, true)]
 	return string(buf)
 }
 
 // dumpMentioning keeps the goroutines of a dump whose stack mentions all of the given substrings.
-func dumpMentions(dump string, subs ...string) bool {
+func crDumpMentions(dump string, subs ...string) bool {
 	for _, g := range strings.Split(dump, "\n\n") {
 		ok := true
 		for _, s := range subs {
@@ -94,26 +94,26 @@ func dumpMentions(dump string, subs ...string) bool {
 
 // ---- marker workloads --------------------------------------------------------------------------
 
-type wOp struct {
+type crOp struct {
 	K   string `json:"k"`
 	V   string `json:"v,omitempty"`
 	Del bool   `json:"del,omitempty"`
 }
 
-// wBatch is one atomic unit of a workload: a plain batch, a batch larger than the write buffer
+// crBatch is one atomic unit of a workload: a plain batch, a batch larger than the write buffer
 // (routed through a transaction by DB.Write), or an explicit transaction that is committed or
 // discarded.  Its first op puts the head marker m%06d and its last op the tail marker t%06d, so the
 // set of surviving batches can be read off the recovered contents and partial application shows.
-type wBatch struct {
+type crBatch struct {
 	ID      int    `json:"id"`
 	Kind    string `json:"kind"` // write | big | tx | txdiscard
 	Sync    bool   `json:"sync,omitempty"`
-	Ops     []wOp  `json:"ops"`
+	Ops     []crOp  `json:"ops"`
 	Compact bool   `json:"compact,omitempty"` // CompactRange after it
 	Chunks  int    `json:"chunks,omitempty"`  // tx: the body is written with this many Transaction.Write calls
 }
 
-type wlSpec struct {
+type crSpec struct {
 	Config     string   `json:"config"`
 	Opts       gen.Opts `json:"opts"`
 	Seed       uint64   `json:"workload_seed"`
@@ -126,18 +126,18 @@ type wlSpec struct {
 	Keys       int      `json:"keys"`
 }
 
-func headKey(id int) string { return fmt.Sprintf("m%06d", id) }
-func tailKey(id int) string { return fmt.Sprintf("t%06d", id) }
+func crHeadKey(id int) string { return fmt.Sprintf("m%06d", id) }
+func crTailKey(id int) string { return fmt.Sprintf("t%06d", id) }
 
-func (s *wlSpec) gen() []*wBatch {
+func (s *crSpec) gen() []*crBatch {
 	r := rng.New(s.Seed)
 	keys := s.Keys
 	if keys == 0 {
 		keys = 30
 	}
-	var out []*wBatch
+	var out []*crBatch
 	for i := 0; i < s.N; i++ {
-		b := &wBatch{ID: i, Kind: "write", Sync: r.Intn(3) == 0}
+		b := &crBatch{ID: i, Kind: "write", Sync: r.Intn(3) == 0}
 		x := r.Intn(100)
 		switch {
 		case x < s.BigPct:
@@ -149,7 +149,7 @@ func (s *wlSpec) gen() []*wBatch {
 			}
 		}
 		b.Compact = r.Intn(100) < s.CompactPct
-		b.Ops = append(b.Ops, wOp{K: headKey(i), V: "1"})
+		b.Ops = append(b.Ops, crOp{K: crHeadKey(i), V: "1"})
 		n := r.Intn(5)
 		vsz := func() int { return r.Intn(120) }
 		switch b.Kind {
@@ -171,18 +171,18 @@ func (s *wlSpec) gen() []*wBatch {
 		for j := 0; j < n; j++ {
 			k := fmt.Sprintf("k%02d", r.Intn(keys))
 			if r.Intn(4) == 0 {
-				b.Ops = append(b.Ops, wOp{K: k, Del: true})
+				b.Ops = append(b.Ops, crOp{K: k, Del: true})
 			} else {
-				b.Ops = append(b.Ops, wOp{K: k, V: fmt.Sprintf("%d-%s", i, strings.Repeat("v", vsz()))})
+				b.Ops = append(b.Ops, crOp{K: k, V: fmt.Sprintf("%d-%s", i, strings.Repeat("v", vsz()))})
 			}
 		}
-		b.Ops = append(b.Ops, wOp{K: tailKey(i), V: "1"})
+		b.Ops = append(b.Ops, crOp{K: crTailKey(i), V: "1"})
 		out = append(out, b)
 	}
 	return out
 }
 
-func (b *wBatch) batch(from, to int) *leveldb.Batch {
+func (b *crBatch) batch(from, to int) *leveldb.Batch {
 	lb := new(leveldb.Batch)
 	for _, op := range b.Ops[from:to] {
 		if op.Del {
@@ -194,7 +194,7 @@ func (b *wBatch) batch(from, to int) *leveldb.Batch {
 	return lb
 }
 
-func applyBatches(bs []*wBatch, present func(id int) bool) kvmap {
+func crApplyBatches(bs []*crBatch, present func(id int) bool) kvmap {
 	m := kvmap{}
 	for _, b := range bs {
 		if !present(b.ID) {
@@ -212,7 +212,7 @@ func applyBatches(bs []*wBatch, present func(id int) bool) kvmap {
 }
 
 // dumpDB reads everything through an iterator.
-func dumpDB(db *leveldb.DB) (kvmap, error) {
+func crDumpDB(db *leveldb.DB) (kvmap, error) {
 	m := kvmap{}
 	it := db.NewIterator(nil, nil)
 	for it.Next() {
@@ -224,7 +224,7 @@ func dumpDB(db *leveldb.DB) (kvmap, error) {
 }
 
 // markers reads which batches are (head) present and which show only one of their two markers.
-func markers(got kvmap) (present map[int]bool, partial []int) {
+func crMarkers(got kvmap) (present map[int]bool, partial []int) {
 	present = map[int]bool{}
 	tails := map[int]bool{}
 	for k := range got {
@@ -253,7 +253,7 @@ func markers(got kvmap) (present map[int]bool, partial []int) {
 	return
 }
 
-func sortedIDs(m map[int]bool) []int {
+func crSortedIDs(m map[int]bool) []int {
 	var ks []int
 	for k := range m {
 		ks = append(ks, k)
@@ -265,9 +265,9 @@ func sortedIDs(m map[int]bool) []int {
 // subsetOracle is the oracle shared by the crash and fault checks: the contents must be what exactly
 // the batches whose marker is present produce, applied in issue order; allowed(id) says whether batch
 // id may be present at all, must lists the ids that have to be.  It returns the failing oracle's name.
-func subsetOracle(bs []*wBatch, got kvmap, allowed func(id int) bool, must []int) (oracle, msg string, present map[int]bool) {
-	present, partial := markers(got)
-	for _, id := range sortedIDs(present) {
+func crSubsetOracle(bs []*crBatch, got kvmap, allowed func(id int) bool, must []int) (oracle, msg string, present map[int]bool) {
+	present, partial := crMarkers(got)
+	for _, id := range crSortedIDs(present) {
 		if !allowed(id) {
 			return "never-issued-present", fmt.Sprintf("batch %d is present although it was never issued (or was discarded)", id), present
 		}
@@ -280,25 +280,25 @@ func subsetOracle(bs []*wBatch, got kvmap, allowed func(id int) bool, must []int
 			return "acked-missing", fmt.Sprintf("acknowledged batch %d (kind %s, sync %v) is missing", id, bs[id].Kind, bs[id].Sync), present
 		}
 	}
-	want := applyBatches(bs, func(id int) bool { return present[id] })
+	want := crApplyBatches(bs, func(id int) bool { return present[id] })
 	for k, v := range want {
 		g, ok := got[k]
 		if !ok {
-			return "contents-mismatch", fmt.Sprintf("key %q missing; the present batches %s produce %.24q", k, idRanges(sortedIDs(present)), v), present
+			return "contents-mismatch", fmt.Sprintf("key %q missing; the present batches %s produce %.24q", k, crIDRanges(crSortedIDs(present)), v), present
 		}
 		if g != v {
-			return "contents-mismatch", fmt.Sprintf("key %q = %.24q; the present batches %s produce %.24q", k, g, idRanges(sortedIDs(present)), v), present
+			return "contents-mismatch", fmt.Sprintf("key %q = %.24q; the present batches %s produce %.24q", k, g, crIDRanges(crSortedIDs(present)), v), present
 		}
 	}
 	for k, g := range got {
 		if _, ok := want[k]; !ok {
-			return "contents-mismatch", fmt.Sprintf("key %q = %.24q returned; the present batches %s leave it absent", k, g, idRanges(sortedIDs(present))), present
+			return "contents-mismatch", fmt.Sprintf("key %q = %.24q returned; the present batches %s leave it absent", k, g, crIDRanges(crSortedIDs(present))), present
 		}
 	}
 	return "", "", present
 }
 
-func idRanges(ids []int) string {
+func crIDRanges(ids []int) string {
 	var sb strings.Builder
 	sb.WriteByte('[')
 	for i := 0; i < len(ids); {
@@ -322,7 +322,7 @@ func idRanges(ids []int) string {
 
 // ---- images ------------------------------------------------------------------------------------
 
-func errClass(err error) string {
+func crErrClass(err error) string {
 	if err == nil {
 		return "ok"
 	}
@@ -338,33 +338,33 @@ func errClass(err error) string {
 	return "other"
 }
 
-func fdName(fd storage.FileDesc) string { return fmt.Sprintf("%s-%d", stor.FtName(fd.Type), fd.Num) }
+func crFdName(fd storage.FileDesc) string { return fmt.Sprintf("%s-%d", stor.FtName(fd.Type), fd.Num) }
 
 // imageHex renders an image for a replay file (nil when it is too large to be useful).
-func imageHex(s *stor.Stor) map[string]interface{} {
+func crImageHex(s *stor.Stor) map[string]interface{} {
 	if s == nil || s.TotalBytes() > 384<<10 {
 		return nil
 	}
 	files := map[string]string{}
 	for _, fd := range s.Files() {
 		b, _ := s.FileBytes(fd)
-		files[fdName(fd)] = hex.EncodeToString(b)
+		files[crFdName(fd)] = hex.EncodeToString(b)
 	}
 	out := map[string]interface{}{"files": files}
 	if m, ok := s.Meta(); ok {
-		out["current"] = fdName(m)
+		out["current"] = crFdName(m)
 	} else {
 		out["current"] = "none"
 	}
 	return out
 }
 
-// shadow tracks length and synced length per file from the operations seen by a Before hook (valid for
+// crShadow tracks length and synced length per file from the operations seen by a Before hook (valid for
 // fault-free runs), so that the tail policy drawn by stor.ImageLocked can be reported.
-type shadow map[storage.FileDesc]*[2]int
+type crShadow map[storage.FileDesc]*[2]int
 
-func shadowOf(s *stor.Stor) shadow {
-	sh := shadow{}
+func crShadowOf(s *stor.Stor) crShadow {
+	sh := crShadow{}
 	for _, fd := range s.Files() {
 		b, _ := s.FileBytes(fd)
 		sh[fd] = &[2]int{len(b), len(b)}
@@ -372,7 +372,7 @@ func shadowOf(s *stor.Stor) shadow {
 	return sh
 }
 
-func (sh shadow) apply(op stor.Op) {
+func (sh crShadow) apply(op stor.Op) {
 	switch op.Kind {
 	case stor.OpCreate:
 		sh[op.Fd] = &[2]int{0, 0}
@@ -394,7 +394,7 @@ func (sh shadow) apply(op stor.Op) {
 // is - the zeros/garbage that the cut+zeros / cut+garbage policies append to such a file could
 // retroactively complete a torn record that an earlier recovery already treated as absent (seen with
 // nested crashes: a manifest record cut one 0x00 byte short, "healed" by zeros appended one level deeper).
-func (sh shadow) takeImage(s *stor.Stor, seed uint64) *stor.Stor {
+func (sh crShadow) takeImage(s *stor.Stor, seed uint64) *stor.Stor {
 	img := s.ImageLocked(rng.New(seed))
 	for fd, f := range sh {
 		if f[0] == f[1] && fd.Type != storage.TypeTable {
@@ -406,11 +406,11 @@ func (sh shadow) takeImage(s *stor.Stor, seed uint64) *stor.Stor {
 	return img
 }
 
-var tailNames = [...]string{"lost", "kept", "cut", "cut+zeros", "cut+garbage"}
+var crTailNames = [...]string{"lost", "kept", "cut", "cut+zeros", "cut+garbage"}
 
 // policies replays the draws of stor.imageLocked for the given seed and returns, per file with a
 // non-empty unsynced tail, the policy that applies.
-func (sh shadow) policies(seed uint64) (out []string, unsyncedBytes int) {
+func (sh crShadow) policies(seed uint64) (out []string, unsyncedBytes int) {
 	r := rng.New(seed)
 	fds := make([]storage.FileDesc, 0, len(sh))
 	for fd := range sh {
@@ -428,7 +428,7 @@ func (sh shadow) policies(seed uint64) (out []string, unsyncedBytes int) {
 		pol := r.Intn(5)
 		if tail > 0 {
 			r.Intn(tail + 1)
-			out = append(out, stor.FtName(fd.Type)+"/"+tailNames[pol])
+			out = append(out, stor.FtName(fd.Type)+"/"+crTailNames[pol])
 			unsyncedBytes += tail
 		}
 		switch stor.TailPolicy(pol) {
@@ -447,7 +447,7 @@ func (sh shadow) policies(seed uint64) (out []string, unsyncedBytes int) {
 
 // ---- reading tables of an image ----------------------------------------------------------------
 
-func tableReaderOpts(o *opt.Options, strict bool) *opt.Options {
+func crTableReaderOpts(o *opt.Options, strict bool) *opt.Options {
 	ro := &opt.Options{Comparer: leveldb.VerifIComparer(o.GetComparer()), Filter: o.Filter}
 	if strict {
 		ro.Strict = opt.StrictAll
@@ -459,13 +459,13 @@ func tableReaderOpts(o *opt.Options, strict bool) *opt.Options {
 
 // readTable lists the entries of a table file held in memory. strict: stop with an error at the first
 // damaged block; otherwise damaged blocks are skipped (as Recover does).
-func readTable(data []byte, fd storage.FileDesc, o *opt.Options, strict bool) (ents []leveldb.VerifEntry, err error) {
+func crReadTable(data []byte, fd storage.FileDesc, o *opt.Options, strict bool) (ents []leveldb.VerifEntry, err error) {
 	defer func() {
 		if p := recover(); p != nil {
 			err = fmt.Errorf("table reader panic: %v", p)
 		}
 	}()
-	tr, err := table.NewReader(bytes.NewReader(data), int64(len(data)), fd, nil, nil, tableReaderOpts(o, strict))
+	tr, err := table.NewReader(bytes.NewReader(data), int64(len(data)), fd, nil, nil, crTableReaderOpts(o, strict))
 	if err != nil {
 		return nil, err
 	}
@@ -484,12 +484,12 @@ func readTable(data []byte, fd storage.FileDesc, o *opt.Options, strict bool) (e
 
 // tableBlocks returns, for a readable table, the start offsets of its data blocks (ascending), the end
 // of the data area, and for each entry the start offset of the block that holds it.
-func tableBlocks(data []byte, fd storage.FileDesc, o *opt.Options) (ents []leveldb.VerifEntry, blockOf []int64, starts []int64, err error) {
-	ents, err = readTable(data, fd, o, true)
+func crTableBlocks(data []byte, fd storage.FileDesc, o *opt.Options) (ents []leveldb.VerifEntry, blockOf []int64, starts []int64, err error) {
+	ents, err = crReadTable(data, fd, o, true)
 	if err != nil {
 		return
 	}
-	tr, err := table.NewReader(bytes.NewReader(data), int64(len(data)), fd, nil, nil, tableReaderOpts(o, true))
+	tr, err := table.NewReader(bytes.NewReader(data), int64(len(data)), fd, nil, nil, crTableReaderOpts(o, true))
 	if err != nil {
 		return
 	}
@@ -513,18 +513,18 @@ func tableBlocks(data []byte, fd storage.FileDesc, o *opt.Options) (ents []level
 
 // ---- Lean `dur` protocol -----------------------------------------------------------------------
 
-var leanMu sync.Mutex
+var crLeanMu sync.Mutex
 
-var castagnoli = crc32.MakeTable(crc32.Castagnoli)
+var crCastagnoli = crc32.MakeTable(crc32.Castagnoli)
 
 // contentsDigest is "<nlive> <crc32c>" over the lines hex(k)=hex(v)\n sorted bytewise by raw key.
-func contentsDigest(m kvmap) string {
+func crDigest(m kvmap) string {
 	ks := make([]string, 0, len(m))
 	for k := range m {
 		ks = append(ks, k)
 	}
 	sort.Strings(ks)
-	h := crc32.New(castagnoli)
+	h := crc32.New(crCastagnoli)
 	for _, k := range ks {
 		fmt.Fprintf(h, "%s=%s\n", gen.Hex([]byte(k)), gen.Hex([]byte(m[k])))
 	}
@@ -532,7 +532,7 @@ func contentsDigest(m kvmap) string {
 }
 
 // emitDur writes one image and the outcome of the real recovery for the Lean model of recovery.
-func emitDur(c *Ctx, img *stor.Stor, o *opt.Options, cmpID string, outcome string) bool {
+func crEmitDur(c *Ctx, img *stor.Stor, o *opt.Options, cmpID string, outcome string) bool {
 	fds := img.Files()
 	for _, fd := range fds {
 		if b, _ := img.FileBytes(fd); len(b) > 400<<10 {
@@ -554,7 +554,7 @@ func emitDur(c *Ctx, img *stor.Stor, o *opt.Options, cmpID string, outcome strin
 		case storage.TypeJournal:
 			lines = append(lines, fmt.Sprintf("dur file j %d %s", fd.Num, gen.Hex(b)))
 		case storage.TypeTable:
-			ents, err := readTable(b, fd, o, true)
+			ents, err := crReadTable(b, fd, o, true)
 			if err != nil {
 				lines = append(lines, fmt.Sprintf("dur tablebad %d", fd.Num))
 				break
@@ -573,35 +573,35 @@ func emitDur(c *Ctx, img *stor.Stor, o *opt.Options, cmpID string, outcome strin
 			lines = append(lines, sb.String())
 		}
 	}
-	leanMu.Lock()
+	crLeanMu.Lock()
 	for _, l := range lines {
 		c.Lean(l, "ok")
 	}
 	c.Lean("dur recover", outcome)
-	leanMu.Unlock()
+	crLeanMu.Unlock()
 	return true
 }
 
 // ---- crash-image engine (C04, C11) -------------------------------------------------------------
 
-type crashPoint struct {
+type crPoint struct {
 	OpSeq   int    `json:"op_seq"` // index of the storage operation before which the crash happens
 	Op      string `json:"op"`
 	ImgSeed uint64 `json:"image_seed"` // rng.New(seed) is handed to stor.ImageLocked
 }
 
-type imgCase struct {
+type crImgCase struct {
 	img    *stor.Stor
 	issued int
 	acked  []int // must be present
-	path   []crashPoint
+	path   []crPoint
 }
 
 type crashEnv struct {
 	c        *Ctx
 	sigPref  string // "" for C04, "tx:" for C11
-	spec     *wlSpec
-	batches  []*wBatch
+	spec     *crSpec
+	batches  []*crBatch
 	o        *opt.Options
 	maxDepth int   // nested crash levels below the first image
 	nestProb [2]int // chance (num, den) that an op of a recovery yields a nested image
@@ -613,18 +613,18 @@ type crashEnv struct {
 	nimg     int64
 }
 
-func (e *crashEnv) allowed(ic *imgCase) func(id int) bool {
+func (e *crashEnv) allowed(ic *crImgCase) func(id int) bool {
 	return func(id int) bool {
 		return id >= 0 && id < ic.issued && id < len(e.batches) && e.batches[id].Kind != "txdiscard"
 	}
 }
 
-func (e *crashEnv) replay(ic *imgCase, pristine *stor.Stor, extra map[string]interface{}) map[string]interface{} {
+func (e *crashEnv) replay(ic *crImgCase, pristine *stor.Stor, extra map[string]interface{}) map[string]interface{} {
 	rp := map[string]interface{}{
-		"workload": e.spec, "crash_path": ic.path, "issued_before_crash": ic.issued, "acked_before_crash": idRanges(ic.acked),
-		"how": "run the workload (wlSpec.gen with workload_seed) on stor.Stor with these options; in the Before hook of storage op op_seq take stor.ImageLocked(rng.New(image_seed)) and cut files that had no unsynced tail back to their length (shadow.takeImage); reopen the image (nested entries: repeat during that reopen); the image bytes below make the case self-contained",
+		"workload": e.spec, "crash_path": ic.path, "issued_before_crash": ic.issued, "acked_before_crash": crIDRanges(ic.acked),
+		"how": "run the workload (crSpec.gen with workload_seed) on stor.Stor with these options; in the Before hook of storage op op_seq take stor.ImageLocked(rng.New(image_seed)) and cut files that had no unsynced tail back to their length (crShadow.takeImage); reopen the image (nested entries: repeat during that reopen); the image bytes below make the case self-contained",
 	}
-	if im := imageHex(pristine); im != nil {
+	if im := crImageHex(pristine); im != nil {
 		rp["image"] = im
 	}
 	for k, v := range extra {
@@ -633,22 +633,22 @@ func (e *crashEnv) replay(ic *imgCase, pristine *stor.Stor, extra map[string]int
 	return rp
 }
 
-func (e *crashEnv) violate(oracle, msg string, ic *imgCase, pristine *stor.Stor) {
+func (e *crashEnv) violate(oracle, msg string, ic *crImgCase, pristine *stor.Stor) {
 	last := ic.path[len(ic.path)-1]
 	e.c.Res.Violate(e.sigPref+"crash-image:"+oracle, fmt.Sprintf("config %s, crash before storage op #%d (%s), depth %d: %s", e.spec.Config, last.OpSeq, last.Op, len(ic.path), msg), e.replay(ic, pristine, nil))
 	e.c.Res.Count("outcome", "violation:"+oracle)
 }
 
 // check reopens one image and evaluates the C04 oracles on it; r drives the nested images.
-func (e *crashEnv) check(ic *imgCase, r *rng.R) {
+func (e *crashEnv) check(ic *crImgCase, r *rng.R) {
 	c := e.c
 	depth := len(ic.path)
 	atomic.AddInt64(&e.nimg, 1)
 	pristine := ic.img
 	work := pristine.Clone()
-	var nested []*imgCase
+	var nested []*crImgCase
 	if depth <= e.maxDepth {
-		sh := shadowOf(work)
+		sh := crShadowOf(work)
 		nr := r.Fork()
 		work.SetHooks(nil, func(s *stor.Stor, op stor.Op) {
 			atomic.AddInt64(&e.progress, 1)
@@ -658,46 +658,46 @@ func (e *crashEnv) check(ic *imgCase, r *rng.R) {
 				for _, p := range pols {
 					c.Res.Count("tail_policy", p)
 				}
-				nested = append(nested, &imgCase{img: sh.takeImage(s, seed), issued: ic.issued, acked: ic.acked,
-					path: append(append([]crashPoint(nil), ic.path...), crashPoint{op.Seq, "recovery:" + string(op.Kind) + "/" + fdName(op.Fd), seed})})
+				nested = append(nested, &crImgCase{img: sh.takeImage(s, seed), issued: ic.issued, acked: ic.acked,
+					path: append(append([]crPoint(nil), ic.path...), crPoint{op.Seq, "recovery:" + string(op.Kind) + "/" + crFdName(op.Fd), seed})})
 				c.Res.Count("crash_op", "recovery:"+string(op.Kind)+"/"+stor.FtName(op.Fd.Type))
 			}
 			sh.apply(op)
 		})
 	}
 	var db *leveldb.DB
-	err, hung := callWP(wdTimeout, &e.progress, func() (err error) { db, err = leveldb.Open(work, e.o); return })
+	err, hung := crCallP(crWdTimeout, &e.progress, func() (err error) { db, err = leveldb.Open(work, e.o); return })
 	work.SetHooks(nil, nil)
 	nontrivial := ic.issued > 0
 	c.Res.Eval(fmt.Sprintf("%s/%d/%v", e.spec.Config, e.spec.Seed, ic.path), nontrivial)
 	c.Res.Count("depth", fmt.Sprintf("%d", depth))
 	if hung {
-		c.Res.Violate(e.sigPref+"crash-image:reopen:hang", "Open of a crash image did not return within 20 s:\n"+blockedSummary(goroutineDump()), e.replay(ic, pristine, nil))
+		c.Res.Violate(e.sigPref+"crash-image:reopen:hang", "Open of a crash image did not return within 20 s:\n"+blockedSummary(crGoroutines()), e.replay(ic, pristine, nil))
 		atomic.StoreInt32(&e.stopped, 1)
 		c.Hung = true
 		return
 	}
 	wantLean := depth == 1 && e.leanLeft != nil && r.Intn(e.leanEvery) == 0 && atomic.AddInt64(e.leanLeft, -1) >= 0
 	if err != nil {
-		e.violate("reopen-error:"+errClass(err), fmt.Sprintf("Open failed: %v", err), ic, pristine)
+		e.violate("reopen-error:"+crErrClass(err), fmt.Sprintf("Open failed: %v", err), ic, pristine)
 		if wantLean {
-			emitDur(c, pristine, e.o, e.spec.Opts.Cmp, "err "+errClass(err))
+			crEmitDur(c, pristine, e.o, e.spec.Opts.Cmp, "err "+crErrClass(err))
 		}
 		return
 	}
 	closed := false
 	defer func() {
 		if !closed {
-			callW(wdTimeout, db.Close)
+			crCall(crWdTimeout, db.Close)
 		}
 	}()
-	got, derr := dumpDB(db)
+	got, derr := crDumpDB(db)
 	if derr != nil {
 		e.violate("read-error", fmt.Sprintf("iterating the reopened DB failed: %v", derr), ic, pristine)
 		return
 	}
 	if wantLean {
-		if emitDur(c, pristine, e.o, e.spec.Opts.Cmp, "ok "+contentsDigest(got)) {
+		if crEmitDur(c, pristine, e.o, e.spec.Opts.Cmp, "ok "+crDigest(got)) {
 			c.Res.Count("lean", "images")
 		}
 	}
@@ -706,7 +706,7 @@ func (e *crashEnv) check(ic *imgCase, r *rng.R) {
 			delete(got, k)
 		}
 	}
-	oracle, msg, present := subsetOracle(e.batches, got, e.allowed(ic), ic.acked)
+	oracle, msg, present := crSubsetOracle(e.batches, got, e.allowed(ic), ic.acked)
 	if oracle != "" {
 		e.violate(oracle, msg, ic, pristine)
 		return
@@ -748,7 +748,7 @@ func (e *crashEnv) check(ic *imgCase, r *rng.R) {
 		c.Res.Count("outcome", "usability-checked")
 	}
 	if !closed {
-		callW(wdTimeout, db.Close)
+		crCall(crWdTimeout, db.Close)
 		closed = true
 	}
 	for _, n := range nested {
@@ -762,7 +762,7 @@ func (e *crashEnv) check(ic *imgCase, r *rng.R) {
 func (e *crashEnv) usability(db *leveldb.DB, work *stor.Stor, got kvmap, closed *bool) (string, string) {
 	wo := &opt.WriteOptions{Sync: true}
 	var oracle, msg string
-	err, hung := callWP(wdTimeout, &e.progress, func() error {
+	err, hung := crCallP(crWdTimeout, &e.progress, func() error {
 		if err := db.Put([]byte("zz-after"), []byte("x"), wo); err != nil {
 			oracle, msg = "usable:put-error", fmt.Sprintf("Put after recovery: %v", err)
 			return nil
@@ -790,7 +790,7 @@ func (e *crashEnv) usability(db *leveldb.DB, work *stor.Stor, got kvmap, closed 
 	})
 	_ = err
 	if hung {
-		return "usable:hang", "a call on the recovered DB did not return within 20 s:\n" + blockedSummary(goroutineDump())
+		return "usable:hang", "a call on the recovered DB did not return within 20 s:\n" + blockedSummary(crGoroutines())
 	}
 	if oracle != "" {
 		return oracle, msg
@@ -799,15 +799,15 @@ func (e *crashEnv) usability(db *leveldb.DB, work *stor.Stor, got kvmap, closed 
 		return "usable:still-locked", "storage lock not released by Close"
 	}
 	var db2 *leveldb.DB
-	err, hung = callWP(wdTimeout, &e.progress, func() (err error) { db2, err = leveldb.Open(work, e.o); return })
+	err, hung = crCallP(crWdTimeout, &e.progress, func() (err error) { db2, err = leveldb.Open(work, e.o); return })
 	if hung {
 		return "usable:reopen:hang", "second reopen did not return within 20 s"
 	}
 	if err != nil {
-		return "usable:reopen-error:" + errClass(err), fmt.Sprintf("reopen after recovery, writes, compaction and clean close: %v", err)
+		return "usable:reopen-error:" + crErrClass(err), fmt.Sprintf("reopen after recovery, writes, compaction and clean close: %v", err)
 	}
-	defer callW(wdTimeout, db2.Close)
-	got2, err := dumpDB(db2)
+	defer crCall(crWdTimeout, db2.Close)
+	got2, err := crDumpDB(db2)
 	if err != nil {
 		return "usable:read-error", err.Error()
 	}
@@ -843,14 +843,14 @@ func (cr *crashRun) run(r *rng.R) {
 	st := stor.New()
 	st.KeepOps(false)
 	var db *leveldb.DB
-	err, hung := callW(wdTimeout, func() (err error) { db, err = leveldb.Open(st, e.o); return })
+	err, hung := crCall(crWdTimeout, func() (err error) { db, err = leveldb.Open(st, e.o); return })
 	if hung || err != nil {
 		c.Res.Violate(e.sigPref+"workload:open", fmt.Sprintf("creating the DB: err=%v hung=%v", err, hung), e.spec)
 		return
 	}
 	ir := r.Fork()
 	cr2 := r.Fork()
-	sh := shadowOf(st)
+	sh := crShadowOf(st)
 	nmut := 0
 	hook := func(s *stor.Stor, op stor.Op) {
 		atomic.AddInt64(&e.progress, 1)
@@ -864,7 +864,7 @@ func (cr *crashRun) run(r *rng.R) {
 		acked := append([]int(nil), cr.acked...)
 		cr.mu.Unlock()
 		issued := int(atomic.LoadInt64(&cr.issued))
-		opName := string(op.Kind) + "/" + fdName(op.Fd)
+		opName := string(op.Kind) + "/" + crFdName(op.Fd)
 		c.Res.CountN("crash_op", string(op.Kind)+"/"+stor.FtName(op.Fd.Type), n)
 		for i := 0; i < n; i++ {
 			seed := ir.U64()
@@ -875,7 +875,7 @@ func (cr *crashRun) run(r *rng.R) {
 			if unsynced == 0 {
 				c.Res.Count("tail_policy", "nothing-unsynced")
 			}
-			ic := &imgCase{img: sh.takeImage(s, seed), issued: issued, acked: acked, path: []crashPoint{{op.Seq, opName, seed}}}
+			ic := &crImgCase{img: sh.takeImage(s, seed), issued: issued, acked: acked, path: []crPoint{{op.Seq, opName, seed}}}
 			e.check(ic, cr2)
 			atomic.AddInt64(&e.progress, 1)
 		}
@@ -883,7 +883,7 @@ func (cr *crashRun) run(r *rng.R) {
 	st.SetHooks(nil, hook)
 	fail := func(call string, err error, hung bool, id int) {
 		if hung {
-			c.Res.Violate(e.sigPref+"workload:"+call+":hang", fmt.Sprintf("batch %d: %s did not return within 20 s (no faults injected):\n%s", id, call, blockedSummary(goroutineDump())), e.spec)
+			c.Res.Violate(e.sigPref+"workload:"+call+":hang", fmt.Sprintf("batch %d: %s did not return within 20 s (no faults injected):\n%s", id, call, blockedSummary(crGoroutines())), e.spec)
 			c.Hung = true
 		} else {
 			c.Res.Violate(e.sigPref+"workload:"+call+":error", fmt.Sprintf("batch %d: %s failed without any injected fault: %v", id, call, err), e.spec)
@@ -891,7 +891,7 @@ func (cr *crashRun) run(r *rng.R) {
 		atomic.StoreInt32(&e.stopped, 1)
 	}
 	ack := func(id int) { cr.mu.Lock(); cr.acked = append(cr.acked, id); cr.mu.Unlock() }
-	w := func(f func() error) (error, bool) { return callWP(wdTimeout, &e.progress, f) }
+	w := func(f func() error) (error, bool) { return crCallP(crWdTimeout, &e.progress, f) }
 	for _, b := range e.batches {
 		if atomic.LoadInt32(&e.stopped) != 0 {
 			break
